@@ -120,9 +120,10 @@ func sampleOf(v amf0ref.Val) any {
 // ---------------------------------------------------------------- (b) container state machine
 
 type Op struct {
-	Op  string        `json:"op"` // set | get | roundtrip
-	Key amf0ref.Bytes `json:"key,omitempty"`
-	Val *amf0ref.Val  `json:"val,omitempty"`
+	Op   string        `json:"op"` // set | get | roundtrip | size | nested
+	Key  amf0ref.Bytes `json:"key,omitempty"`
+	Val  *amf0ref.Val  `json:"val,omitempty"`
+	Key2 amf0ref.Bytes `json:"key2,omitempty"` // nested: key set inside the container stored under Key
 }
 
 type MCase struct {
@@ -148,7 +149,10 @@ func newContainer(k amf0ref.Kind) (container, func(string, amf0.Amf0)) {
 	return c, func(k string, v amf0.Amf0) { c.Set(k, v) }
 }
 
+var nested bool // set by runMachine when a nested mutation happened (class measurement only)
+
 func runMachine(c MCase) (replaced, reopened bool, err error) {
+	nested = false
 	model := amf0ref.Val{K: c.Kind}
 	cont, set := newContainer(c.Kind)
 	for i, op := range c.Ops {
@@ -181,6 +185,48 @@ func runMachine(c MCase) (replaced, reopened bool, err error) {
 				}
 			} else if e := amf0x.Same(got, *want); e != nil {
 				return replaced, reopened, fmt.Errorf("op %d: Get(%q): %v", i, op.Key, e)
+			}
+		case "size":
+			// Size() may be asked at any time (and may be cached by an implementation): it must always
+			// be the length of what MarshalBinary produces now
+			sz := cont.Size()
+			b, e := cont.MarshalBinary()
+			if e != nil || len(b) != sz {
+				return replaced, reopened, fmt.Errorf("op %d: Size() = %d, MarshalBinary gives %d bytes (err %v)", i, sz, len(b), e)
+			}
+		case "nested":
+			// mutate a container that is stored inside this one (Get returns the live value)
+			for j := range model.Props {
+				if string(model.Props[j].Key) != string(op.Key) {
+					continue
+				}
+				mv := &model.Props[j].Val
+				if mv.K != amf0ref.Object && mv.K != amf0ref.Ecma && mv.K != amf0ref.Strict {
+					break
+				}
+				nv := amf0x.Build(*op.Val)
+				switch inner := cont.Get(string(op.Key)).(type) {
+				case *amf0.Object:
+					inner.Set(string(op.Key2), nv)
+				case *amf0.EcmaArray:
+					inner.Set(string(op.Key2), nv)
+				case *amf0.StrictArray:
+					inner.Set(string(op.Key2), nv)
+				default:
+					return replaced, reopened, fmt.Errorf("op %d: Get(%q) returned %T for a stored container", i, op.Key, inner)
+				}
+				found := false
+				for k := range mv.Props {
+					if string(mv.Props[k].Key) == string(op.Key2) {
+						mv.Props[k].Val = *op.Val
+						found = true
+					}
+				}
+				if !found {
+					mv.Props = append(mv.Props, amf0ref.Prop{Key: op.Key2, Val: *op.Val})
+				}
+				nested = true
+				break
 			}
 		case "roundtrip":
 			b, e := cont.MarshalBinary()
@@ -215,9 +261,9 @@ func runMachine(c MCase) (replaced, reopened bool, err error) {
 }
 
 var recMachine = ev.New(prop, "container-machine",
-	"operation sequences (<=30 ops) on one Object/EcmaArray/StrictArray: Set(k,v) with keys from a 6-key pool (so replacement happens), Get(k), marshal+unmarshal into a fresh container that then continues; "+
+	"operation sequences (<=30 ops) on one Object/EcmaArray/StrictArray: Set(k,v) with keys from a 6-key pool (so replacement happens), Get(k), Size() at any time, Set on a container stored inside (through Get), marshal+unmarshal into a fresh container that then continues; "+
 		"model = ordered key/value list where replacing keeps the position; non-trivial = a replacement and a marshal/unmarshal both occur").
-	Require("replace+reopen")
+	Require("replace+reopen", "nested-mutation")
 
 func TestContainerMachine(t *testing.T) {
 	ev.Rapid(t, "container-machine", 4000, 300000, func(t *rapid.T) {
@@ -226,12 +272,20 @@ func TestContainerMachine(t *testing.T) {
 		n := rapid.IntRange(1, 30).Draw(t, "nops")
 		for i := 0; i < n; i++ {
 			key := rapid.SampledFrom(pool).Draw(t, "key")
-			switch rapid.IntRange(0, 5).Draw(t, "op") {
+			switch rapid.IntRange(0, 8).Draw(t, "op") {
 			case 0, 1, 2:
 				v := amf0x.Gen(t, amf0x.Opts{MaxDepth: 3, MaxNodes: 6, DistinctKeys: true})
+				if rapid.IntRange(0, 2).Draw(t, "cont") == 0 {
+					v = amf0ref.Val{K: rapid.SampledFrom([]amf0ref.Kind{amf0ref.Object, amf0ref.Ecma, amf0ref.Strict}).Draw(t, "ck")}
+				}
 				c.Ops = append(c.Ops, Op{Op: "set", Key: key, Val: &v})
 			case 3:
 				c.Ops = append(c.Ops, Op{Op: "get", Key: key})
+			case 4, 5:
+				c.Ops = append(c.Ops, Op{Op: "size"})
+			case 6, 7:
+				v := amf0x.Gen(t, amf0x.Opts{MaxDepth: 2, MaxNodes: 4, DistinctKeys: true})
+				c.Ops = append(c.Ops, Op{Op: "nested", Key: key, Key2: rapid.SampledFrom(pool).Draw(t, "key2"), Val: &v})
 			default:
 				c.Ops = append(c.Ops, Op{Op: "roundtrip"})
 			}
@@ -245,6 +299,9 @@ func TestContainerMachine(t *testing.T) {
 		var cl []string
 		if rep && reo {
 			cl = append(cl, "replace+reopen")
+		}
+		if nested {
+			cl = append(cl, "nested-mutation")
 		}
 		recMachine.Case(rep && reo, ev.Hash(c), cl, func() any { return c })
 		if err != nil {
